@@ -241,7 +241,7 @@ def generate_parallel(program, cnames, procs=16):
             raise CannotBind('contract %s: function not found in /repo' % n)
         for k in range(len(c.cases or [1])):
             jobs.append((n, k))
-    if len(jobs) == 1 or procs == 1:
+    if len(jobs) <= 1 or procs == 1:
         outs = [_gen_job(j) for j in jobs]
     else:
         pool = mp.get_context('fork').Pool(min(procs, len(jobs)))
